@@ -420,5 +420,6 @@ func M_ctx_WithCancelCause(parent context.Context) (context.Context, context.Can
 // OnUnlock/OnLock hooks of the mutex (havoc under the rely condition).
 func M_cond_Wait(c *sync.Cond) {
 	c.L.Unlock()
+	Yield() // the goroutine is parked; the harness' OnYield hook decides what happens meanwhile
 	c.L.Lock()
 }
